@@ -2,14 +2,21 @@
 
 Histories: a `new ty=sv|ipv|stk cap=N kind=int|nt` line, then operation lines on up to four live
 objects (`obj=k`, `other=j`).  After every line all four objects are observed through the public API
-(size, empty, full, elements in order, front/back, operator[], reverse and const iteration) and compared
+(size, empty, full, elements in order, front/back, operator[], data(), reverse and const iteration, storage inside the
+object) and compared
 with the Lean model (R1), with the Lean spec (R3) and the spec with libstdc++ (R2).  A line is valid when its
 documented precondition holds in the *spec* state (Tetl.C01.Spec.valid, the hypothesis of history_refines): an object
 the standard leaves unspecified (moved-from) only takes operations without a precondition on its contents."""
 import itertools
+import os
 import random
+import sys
 
+import lib
 from lib import Case, fmt_list
+
+sys.path.insert(0, os.path.join(lib.VERIF, "gen"))
+import sizetype  # noqa: E402
 
 PROP = "C01"
 DRIVER = "drv-c01"
@@ -42,7 +49,10 @@ ASSUMPTIONS = ["std::vector / std::stack of libstdc++ 12 are the reference for s
                "state the spec column of the whole line is masked (R2/R3 resume once the object is re-specified)",
                "std::inplace_vector's member list is taken from the synopsis [inplace.vector] (libstdc++ 12 does not ship it): "
                "Spec.offers .ipv = every operation of the property's list"]
-TRUSTED = ["hand model Tetl/C01/Model.lean + Step.lean tied to the source by the correspondence run (R1) on every run",
+TRUSTED = ["hand model Tetl/C01/Model.lean + Step.lean + Observe.lean tied to the source by the correspondence run (R1) on every run",
+           "gen/sizetype.py (text-level extractor of the smallest_size_t chain, the storage selection and the size-type "
+           "aliases; anything it cannot parse is an error; its result is cross-checked on every run: api_bits / api_width "
+           "compare the generated chain with sizeof of the real type, api_abi the assumed widths of the named types)",
            "spec Tetl/C01/Spec.lean validated against libstdc++ (R2) on every run"]
 _P = "Tetl.C01.Props."
 _STEP = [_P + "step_refines", _P + "step_refines_spec", _P + "history_refines"]
@@ -57,25 +67,54 @@ THEOREMS = {
     "erase": _STEP + [_P + "eraseRange_refines"], "erase_range": _STEP + [_P + "eraseRange_refines"],
     "resize": _STEP, "resize_val": _STEP, "assign_fill": _STEP, "assign_range": _STEP, "clear": _STEP,
     "ctor_n": _STEP, "ctor_n_val": _STEP, "ctor_range": _STEP,
-    "erase_if": _STEP + [_P + "eraseIf_refines"], "erase_val": _STEP + [_P + "eraseIf_refines"],
+    "erase_if": _STEP + [_P + "eraseIf_refines", _P + "eraseIf_keeps_handles"],
+    "erase_val": _STEP + [_P + "eraseIf_refines", _P + "eraseIf_keeps_handles"],
     "cmp": _STEP + [_P + "relOps_refines"], "swap": _STEP + [_P + "swap_refines"], "swap_free": _STEP + [_P + "swap_refines"],
-    "copy_ctor": _STEP, "copy_assign": _STEP, "move_ctor": _STEP,
-    "move_assign": _STEP,
+    "copy_ctor": _STEP + [_P + "copy_independent", _P + "interleave_projection", _P + "interleave_ok"],
+    "copy_assign": _STEP + [_P + "interleave_projection", _P + "interleave_ok"],
+    "move_ctor": _STEP + [_P + "moved_from_static_vector", _P + "moved_from_inplace_vector", _P + "moved_from_usable"],
+    "move_assign": _STEP + [_P + "moved_from_static_vector", _P + "moved_from_self", _P + "moved_from_usable"],
+    "dump": [_P + "observers_refine", _P + "observers_refine_ipv_stk", _P + "observers_zero_capacity"],
     "try_push": _STEP + [_P + "tryPush_full"], "try_push_rv": _STEP + [_P + "tryPush_full"],
     "try_emplace": _STEP + [_P + "tryPush_full"], "unchecked_push": _STEP, "unchecked_push_rv": _STEP,
     "unchecked_emplace": _STEP,
-    "api_bits": [_P + "size_fits", _P + "setSize_never_truncates"],
+    "api_bits": [_P + "size_fits", _P + "setSize_never_truncates", _P + "size_type_chain_sound", _P + "size_type_closed",
+                 _P + "size_type_minimal_partial", _P + "size_type_minimal_counterexample", _P + "minBits_spec",
+                 _P + "storage_selection_as_modelled"],
+    "api_width": [_P + "size_fits", _P + "size_type_chain_sound", _P + "size_type_closed", _P + "size_type_minimal_partial",
+                  _P + "size_type_minimal_counterexample", _P + "minBits_spec"],
+    "api_abi": [_P + "size_type_chain_sound"],
     "new": [_P + "initSize_partial", _P + "initSize_counterexample", _P + "history_refines_init"],
     "api_assign": [_P + "ipv_assign_unsupported"],
     "api_member": [_P + "ipv_step_partial", _P + "ipv_missing_counterexample", _P + "ipv_missing_members",
                    _P + "ipv_present_members"],
-    # facts that hold by the representation of the model (separate immutable lists); NOT evidence for the clause
-    # "a copy is independent of its source", which is observed by the harness (see UNPROVED_OBSERVED)
+    # building blocks of copy_independent / interleave_projection (frame facts of the system model)
     "structural": [_P + "unary_frame_structural", _P + "copy_value_frame_structural"],
 }
 _STEP += [_P + "history_refines_modelstate", _P + "validHist_validRun"]
 SEARCH_CAP = 300000
 MOVED = 9999
+EMPTIED = 9998
+GENSIZE_LEAN = os.path.join(lib.LEAN, "Tetl", "C01", "GenSize.lean")
+# capacities at which the harness instantiates static_vector<HD, N> (C01_HD_CAPS in harness/c01.cpp)
+HD_CAPS = (0, 1, 2, 3, 4, 7)
+# the thresholds of the smallest_size_t chain: the selected type is not the smallest one there (known finding)
+WIDTH_CAPS = [0, 1, 254, 255, 256, 65534, 65535, 65536, 4294967294, 4294967295, 4294967296, 9223372036854775807]
+THRESHOLDS = {255, 65535, 4294967295}
+
+
+def regenerate(ctx):
+    """tie T: the conditional_t chain of smallest_size_t<N>, the storage selection of static_vector and the aliases of the
+    size type are re-extracted from the headers of the tree under check into lean/Tetl/C01/GenSize.lean"""
+    try:
+        info = sizetype.extract(lib.REPO)
+    except (sizetype.ParseError, OSError, ValueError) as e:
+        return {"error": "gen/sizetype.py: %s" % e}
+    changed = sizetype.emit(info, GENSIZE_LEAN)
+    return {"generated_file": os.path.relpath(GENSIZE_LEAN, lib.VERIF), "hash": lib.file_hash(GENSIZE_LEAN),
+            "changed": changed, "size_type_chain": [l["src"] + " -> " + l["type_text"] for l in info["chain"]]
+            + ["else -> " + info["fallback_text"]],
+            "storage_selection": ["%s -> %s" % ct for ct in info["storage"]] + ["else -> " + info["storage_else"]]}
 
 ALL_CAPS = [0, 1, 2, 3, 4, 7, 254, 255, 256]
 STK_CAPS = [0, 1, 3, 4]
@@ -188,6 +227,25 @@ def independence_lines(ty, cap, d1):
         out.append("pop obj=0")
     if ty != "ipv":
         out.append("cmp obj=0 other=1")
+    # a second round, alternating: source, copy, source, copy (sizes are tracked: every line stays valid)
+    ns, nc = (n - 1 if n > 0 else 0) + (1 if (n < cap or n > 0) else 0), (n + 1 if n < cap else (n - 1 if n > 0 else 0))
+    if ty == "sv":
+        if ns > 0:
+            out.append("erase obj=1 pos=0")
+            ns -= 1
+        if nc < cap:
+            out.append("insert obj=0 pos=0 x=6")
+            nc += 1
+        if ns < cap:
+            out.append("insert_fill obj=1 pos=%d n=1 x=4" % ns)
+            ns += 1
+        out.append("erase_if obj=0 m=2 r=0")
+        out.append("dump obj=1")
+    else:
+        if ns > 0:
+            out.append("pop obj=1")
+        if nc < cap:
+            out.append("%s obj=0 x=3" % push)
     return out
 
 
@@ -218,7 +276,8 @@ def new_line(ty, cap, kind, init=None):
 
 def exhaustive(add, thorough):
     for ty in ("sv", "stk", "ipv"):
-        for kind in ("int", "nt"):
+        # the handle kind (move assignment empties its source, no self test) exists for static_vector only
+        for kind in (("int", "nt", "hd") if ty == "sv" else ("int", "nt")):
             caps = [0, 1, 2, 3] if ty != "stk" else [0, 1, 3]
             for cap in caps:
                 head = new_line(ty, cap, kind)
@@ -228,6 +287,8 @@ def exhaustive(add, thorough):
                     for op in unary_ops_exhaustive(ty, cap, d):
                         add([head] + pre + [op], "%s/%s" % (ty, op.split(" ")[0]))
                 pair_states = states if (cap <= 2 or thorough) else [s for s in states if 0 not in s or len(s) <= 1]
+                if kind == "hd" and not thorough:
+                    pair_states = [s for s in pair_states if 2 not in s]
                 for d0 in pair_states:
                     for d1 in pair_states:
                         pre = build(ty, d0, 0) + build(ty, d1, 1)
@@ -267,6 +328,10 @@ def exhaustive(add, thorough):
                 for m in ALL_MEMBERS:
                     add(["api_member ty=%s cap=%d kind=%s member=%s %s" % (ty, cap, kind, m, MEMBER_ARGS)],
                         "%s/api_member" % ty)
+    # the size type alone: both sides of every threshold of the chain, far beyond the capacities that are instantiated
+    for n in WIDTH_CAPS:
+        add(["api_width cap=%d" % n], "api_width")
+    add(["api_abi"], "api_abi")
     boundary_histories(add)
 
 
@@ -281,10 +346,27 @@ class Mirror:
         self.unspec = [False] * 4
 
     def mvd(self, d):
-        return [MOVED] * len(d) if self.kind == "nt" else list(d)
+        if self.kind == "nt":
+            return [MOVED] * len(d)
+        if self.kind == "hd":
+            return [EMPTIED] * len(d)
+        return list(d)
 
 
-def rand_history(rnd, ty, cap, kind, length, big):
+UNARY_CANDS = {
+    "sv": ["push", "push_rv", "emplace_back", "insert", "insert_rv", "emplace", "insert_fill", "insert_range", "move_insert",
+           "pop", "erase", "erase_range", "resize", "resize_val", "assign_fill", "assign_range", "clear", "erase_val",
+           "erase_if", "ctor_n", "ctor_n_val", "ctor_range", "dump"],
+    "stk": ["push", "push", "push_rv", "emplace_back", "pop", "pop", "dump"],
+    "ipv": ["try_push", "try_push", "try_push_rv", "try_emplace", "unchecked_push", "unchecked_push_rv",
+            "unchecked_emplace", "pop", "pop", "clear"],
+}
+
+
+def rand_history(rnd, ty, cap, kind, length, big, interleave=False):
+    """interleave=True: the shape of Tetl.C01.Props.copy_independent — object 1 is given a value, object 0 becomes a copy of
+    it (copy construction, or copy assignment where the type has it), then only single-object operations follow, addressed
+    to the source or to the copy in random interleaving (Tetl.C01.allUnary)"""
     m = Mirror(ty, cap, kind)
     lines = [new_line(ty, cap, kind, rnd.choice(["default", "value"]) if ty != "ipv" else "value")]
     tags = set()
@@ -315,7 +397,16 @@ def rand_history(rnd, ty, cap, kind, length, big):
         for i in range(n0):
             emit("unchecked_push x=%d" % (i % 10), "unchecked_push")
         m.o[0] = [i % 10 for i in range(n0)]
-    nobj = 2 if big else 4
+    nobj = 2 if (big or interleave) else 4
+    if interleave:
+        n1 = rnd.randint(0, cap)
+        d1 = [rnd.choice([0, 1, 2, 3, 5, 8]) for _ in range(n1)]
+        for ln in build(ty, d1, 1):
+            emit(ln, ln.split(" ")[0])
+        m.o[1] = list(d1)
+        how = rnd.choice(["copy_ctor", "copy_assign"]) if ty != "ipv" else "copy_ctor"
+        emit("%s obj=0 other=1" % how, how)
+        m.o[0] = list(d1)
     for _ in range(length):
         k = rnd.randrange(nobj)
         d = m.o[k]
@@ -345,6 +436,8 @@ def rand_history(rnd, ty, cap, kind, length, big):
         else:
             cands = ["try_push", "try_push", "try_push_rv", "try_emplace", "unchecked_push", "unchecked_push_rv",
                      "unchecked_emplace", "pop", "clear", "copy_ctor", "move_ctor"]
+        if interleave:
+            cands = UNARY_CANDS[ty]
         op = rnd.choice(cands)
         j = rnd.randrange(nobj)
         o = "obj=%d" % k
@@ -444,7 +537,7 @@ def rand_history(rnd, ty, cap, kind, length, big):
             emit("move_ctor %s other=%d" % (o, j), op)
             m.o[k], m.unspec[k] = list(m.o[j]), m.unspec[j]
             if ty == "ipv":
-                m.o[j] = [] if kind == "nt" else m.o[j]
+                m.o[j] = [] if kind != "int" else m.o[j]
             else:
                 m.o[j] = m.mvd(m.o[j])
             m.unspec[j] = True
@@ -486,11 +579,20 @@ def generate(tier, seed):
     for i in range(nrand):
         ty = rnd.choice(["sv", "sv", "sv", "stk", "ipv"])
         cap = rnd.choice([0, 1, 2, 3, 4, 4, 7, 7] if ty != "stk" else STK_CAPS)
-        kind = rnd.choice(["int", "nt"])
+        kind = rnd.choice(["int", "nt", "hd"] if ty == "sv" else ["int", "nt"])
         lines, tags = rand_history(rnd, ty, cap, kind, rnd.randint(1, 40), False)
         add(lines, "%s/rand" % ty)
         for t in tags:
             dist["rand-op/" + t] = dist.get("rand-op/" + t, 0) + 1
+    # a copy and its source, changed in random interleaving (the hypothesis shape of copy_independent)
+    for i in range(40000 if thorough else 2500):
+        ty = rnd.choice(["sv", "sv", "stk", "ipv"])
+        cap = rnd.choice([1, 2, 3, 4, 4, 7, 7] if ty != "stk" else [1, 3, 4])
+        kind = rnd.choice(["int", "nt", "hd"] if ty == "sv" else ["int", "nt"])
+        lines, tags = rand_history(rnd, ty, cap, kind, rnd.randint(2, 16), False, interleave=True)
+        add(lines, "%s/interleave" % ty)
+        for t in tags:
+            dist["interleave-op/" + t] = dist.get("interleave-op/" + t, 0) + 1
     for i in range(nbig):
         ty = rnd.choice(["sv", "sv", "ipv"])
         cap = rnd.choice([254, 255, 256])
@@ -553,6 +655,17 @@ def classify(case, k, row):
         return None
     if ln.startswith("new ty=ipv") and "init=default" in ln and " cap=0 " not in ln:
         return "F-C01-inplace-vector-default-init"
+    if ln.startswith("api_bits ") or ln.startswith("api_width "):
+        # class: the capacity is one of the thresholds of the chain (Tetl.C01.Props.size_type_minimal_partial) and the
+        # selected width is indeed larger than the smallest one that fits
+        try:
+            cap = int(f.get("cap", ""))
+        except ValueError:
+            return None
+        min_bits = 8 if cap < 2 ** 8 else 16 if cap < 2 ** 16 else 32 if cap < 2 ** 32 else 64
+        if cap in THRESHOLDS and row.model.startswith("bits=") and row.model[5:].isdigit() \
+                and int(row.model[5:]) > min_bits and row.spec == "bits=%d" % min_bits:
+            return "F-C01-size-type-not-smallest-at-threshold"
     return None
 
 
